@@ -136,7 +136,14 @@ def _export_job(shape_t):
     def call(w, it, f):
         mod = w.repo.modules["pysmt.smtlib.script"]
         mk = it.module_global(mod, "smtlibscript_from_formula")
-        script = it.call(mk, [f])
+        try:
+            script = it.call(mk, [f])
+        except AbsRaise as ex:
+            if ex.cls_name != "NoLogicAvailableError":
+                raise
+            # pySMT has no logic for this combination of features and declines to label the script: the caller
+            # names the logic (the text produced is decided all the same)
+            script = it.call(mk, [f], {"logic": "ALL"})
         to_smtlib = it.module_global(w.repo.modules["pysmt.smtlib.printers"], "to_smtlib")
         outs = []
         for dag in (False, True):
@@ -250,12 +257,30 @@ def _export_eval(shape, shape_t, dag, w, f, val):
 _EXPORT = {}
 
 
+# Names the property excludes from SMT-LIB export ("predefined theory symbols and literal spellings, which SMT-LIB
+# itself cannot declare"): kept in the menu of the human-readable round trip, not exported to SMT-LIB.
+SMT_UNDECLARABLE = {"and", "true", "xor"}
+# A name no SMT-LIB symbol can spell (known finding F-C07-1): decided once, not repeated in every context.
+SMT_UNSPELLABLE = {"p|q"}
+
+
+def _mentions(t, names):
+    if isinstance(t, tuple):
+        if t and t[0] == "sym" and t[1] in names:
+            return True
+        return any(_mentions(x, names) for x in t[1:])
+    if isinstance(t, list):
+        return any(_mentions(x, names) for x in t)
+    return False
+
+
 def export_results(repo, tier="quick"):
     key = (repo.root, tier)
     if key not in _EXPORT:
-        shapes = export_shapes()
+        shapes = [sh for sh in export_shapes() if not _mentions(sh.t, SMT_UNDECLARABLE)]
         if tier == "thorough":
-            shapes = proc.in_contexts(shapes)
+            once = [sh for sh in shapes if _mentions(sh.t, SMT_UNSPELLABLE)]
+            shapes = proc.in_contexts([sh for sh in shapes if not _mentions(sh.t, SMT_UNSPELLABLE)]) + once
         jobs = [sh.t for sh in shapes]
         first = _export_job(jobs[0])          # warms the per-process tables before the pool forks
         _EXPORT[key] = first + [r for rs in parallel_map(_export_job, jobs[1:]) for r in rs]
